@@ -1,5 +1,5 @@
 (* C10 — --check changes nothing. *)
-From AD Require Import Bytes Outcome Fs Helper HelperProofs.
+From AD Require Import Bytes Outcome Fs Helper HelperProofs Rewrite Cleanup CheckPredicts.
 
 (* In check mode, for every handler result (including errors and panics), every handler shape, both
    profiles and any single failing operation: the file system after the run IS the file system before,
@@ -19,5 +19,14 @@ Proof.
   eapply Forall_impl; [|exact C]. intros x Hx. unfold readonly_op in Hx. destruct (is_mutating (fst x)); [discriminate | reflexivity].
 Qed.
 
+(* --check predicts the real run: for one file, absent failures and without a stale temporary file, the
+   result reported in check mode (unchanged / replaced / rewritten / unsupported / error / panic) is the result
+   a real run reports - for every handler result, link count, shape and profile *)
+Theorem C10_predicts_real : forall e prof eager handler p f0 ip meta,
+  names f0 p = Some ip -> inodes f0 ip = Some meta -> ip < next_ino f0 -> names f0 (tmp_path p) = None ->
+  snd (run_handler e None Check prof eager handler p (init_sim f0)) = snd (run_handler e None Real prof eager handler p (init_sim f0)).
+Proof. exact check_predicts_real. Qed.
+
 Print Assumptions C10_readonly.
 Print Assumptions C10_readonly_from_start.
+Print Assumptions C10_predicts_real.
